@@ -790,6 +790,9 @@ class Interp:
         if e.id in fr.f.module.globals_assigned and e.id not in fr.f.module.defs and e.id not in fr.f.module.imports:
             gv = fr.f.module.global_consts.get(e.id)
             if gv is not None:
+                table = self.eval_global(gv, fr)
+                if table is not None:
+                    return table
                 # a module constant bound once: a number, or the module's logger
                 c = _fold_const(gv)
                 if c is not None:
@@ -1025,7 +1028,8 @@ class Interp:
                 return VTensor(net.einsum(self.sp, "ij,jk->ik", [a, b]), l.dtype)
             if a.ndim() == 3 and b.ndim() == 3:
                 return VTensor(net.einsum(self.sp, "bij,bjk->bik", [a, b]), l.dtype)
-            raise Unmodelled("matmul of non-matrices")
+            from .torchmodel import function
+            return function(self, "torch.matmul", [l, r], {}, None, node)
         if isinstance(op, (ast.Mult, ast.Div)):
             for t, s, tensor_left in ((l, r, True), (r, l, False)):
                 c = _as_coef(s)
@@ -1390,6 +1394,35 @@ class Interp:
     def ev_Call(self, e, fr):
         from .torchmodel import call
         return call(self, e, fr)
+
+    def eval_global(self, gv, fr, depth=0):
+        """value of a module-level table bound once: displays (nested) of literals, of names of classes / functions (`(int, float, tn.Tensor)`),
+        dictionaries with literal keys; None when the expression is anything else"""
+        if depth > 3:
+            return None
+        if isinstance(gv, ast.Constant):
+            return None if depth == 0 else self.const(gv.value)       # plain constants are handled by the caller
+        if isinstance(gv, (ast.Tuple, ast.List)):
+            items = [self.eval_global(x, fr, depth + 1) for x in gv.elts]
+            if any(x is None for x in items) or not items:
+                return None
+            return VTuple(tuple(items)) if isinstance(gv, ast.Tuple) else VList(items)
+        if isinstance(gv, ast.Dict):
+            items = []
+            for k, v in zip(gv.keys, gv.values):
+                if not isinstance(k, ast.Constant):
+                    return None
+                val = self.eval_global(v, fr, depth + 1)
+                if val is None:
+                    return None
+                items.append((k.value, val))
+            return VConstDict(items)
+        if isinstance(gv, (ast.Name, ast.Attribute)) and depth > 0:
+            r = self.model.resolve(fr.f.module, gv)
+            return VFunc(r) if r is not None else None
+        if isinstance(gv, ast.UnaryOp) and isinstance(gv.op, ast.USub) and isinstance(gv.operand, ast.Constant) and depth > 0:
+            return self.const(-gv.operand.value)
+        return None
 
     @staticmethod
     def literal_key(v):
